@@ -53,6 +53,8 @@ impl DynamicTypeItem {
         };
 
         loop {
+            #[cfg(feature = "verif")]
+            crate::verif::tick("calculate_unit");
             let code = match is_upgrade {
                 true => &next_item.upgrade_code[..],
                 false => &next_item.downgrade_code[..]
